@@ -6,6 +6,7 @@ Run-time contract on the REAL prover.omega.solve_matrix (integers) and prover.si
 Systems: <= 5 variables, <= 8 constraints, coefficients in [-3, 3] (zero rows, duplicate rows, equalities as
 paired inequalities, unbounded directions); exhaustive for 2 variables x 2 constraints with coefficients in
 [-2, 2], random above.  Each call under a wall-clock limit."""
+import os
 import itertools
 import random
 import signal
@@ -34,8 +35,8 @@ def z3_has_solution(rows, integer):
 
 def run(tier='quick', seed=0):
     t0 = time.time()
-    if '/repo' not in sys.path:
-        sys.path.insert(0, '/repo')
+    if os.environ.get('HOLPY_REPO', '/repo') not in sys.path:
+        sys.path.insert(0, os.environ.get('HOLPY_REPO', '/repo'))
     from prover import omega
     from prover import simplex
     rng = random.Random(seed)
@@ -87,20 +88,25 @@ def run(tier='quick', seed=0):
         if len(samples) < 3:
             samples.append({'omega': key, 'result': res})
 
-    def one_simplex(rows):
+    def one_simplex(rows, as_upper=(False,)):
         nonlocal evals
         n = len(rows[0]) - 1
-        key = repr(rows)
+        key = repr(rows) + ('' if not any(as_upper) else ' stated-as-upper-bound=%s' % (list(as_upper),))
         evals += 1
         distinct.add(('simplex', key))
         try:
             def go():
                 s = simplex.Simplex()
-                for r in rows:
+                for k_, r in enumerate(rows):
                     jars = [simplex.Jar(r[i], 'x%d' % i) for i in range(n) if r[i] != 0]
                     if not jars:
                         continue
-                    s.add_ineq(simplex.GreaterEq(jars, -r[n]))
+                    # the row  sum r_i x_i + c >= 0  is stated as  sum r_i x_i >= -c  or as  sum (-r_i) x_i <= c
+                    if as_upper[k_ % len(as_upper)]:
+                        s.add_ineq(simplex.LessEq([simplex.Jar(-r[i], 'x%d' % i) for i in range(n) if r[i] != 0],
+                                                  r[n]))
+                    else:
+                        s.add_ineq(simplex.GreaterEq(jars, -r[n]))
                 try:
                     s.handle_assertion()
                 except (simplex.UNSATException, simplex.AssertUpperException, simplex.AssertLowerException):
@@ -133,6 +139,28 @@ def run(tier='quick', seed=0):
     for r1, r2 in itertools.combinations_with_replacement(rows_all, 2):
         one_omega([r1, r2])
         one_simplex([r1, r2])
+    # ordered triples of bounds on ONE variable (the order in which bounds are asserted matters for a solver that
+    # keeps one lower and one upper bound per row): +-x + c >= 0, c in [-2, 2]
+    one_var = [(a, c) for a in (-1, 1) for c in range(-2, 3)]
+    for trip in itertools.product(one_var, repeat=3):
+        one_simplex(list(trip))
+        # the same system with rows that have a negative coefficient stated as upper bounds on x
+        one_simplex(list(trip), as_upper=tuple(r[0] < 0 for r in trip))
+        one_omega(list(trip))
+    # parallel rows: several bounds on the same linear form, then a few unrelated rows
+    for it in range(150 if tier == 'quick' else 3000):
+        n = rng.randint(1, 4)
+        base = tuple(rng.randint(-2, 2) for _ in range(n))
+        if not any(base):
+            continue
+        rows = []
+        for _ in range(rng.randint(2, 5)):
+            sg = rng.choice([-1, 1])
+            rows.append(tuple(sg * c for c in base) + (rng.randint(-5, 5),))
+        for _ in range(rng.randint(0, 3)):
+            rows.append(tuple(rng.randint(-2, 2) for _ in range(n + 1)))
+        one_simplex(rows, as_upper=tuple(rng.random() < 0.5 for _ in rows))
+        one_omega(rows)
     # random larger systems
     for it in range(250 if tier == 'quick' else 4000):
         n = rng.randint(1, 5)
@@ -144,7 +172,7 @@ def run(tier='quick', seed=0):
         if rng.random() < 0.2:
             rows.append(rows[0])
         one_omega(rows)
-        one_simplex(rows)
+        one_simplex(rows, as_upper=tuple(rng.random() < 0.4 for _ in rows))
     seen = set()
     uniq = []
     for v in violations:
@@ -154,7 +182,8 @@ def run(tier='quick', seed=0):
             uniq.append(v)
     return {'name': 'c16_linear', 'rule': 'all systems of 2 constraints over 2 variables with coefficients in '
             '[-1,1] (thorough [-2,2]) and constants in [-2,2]; random systems with <= 5 variables, <= 8 constraints, '
-            'coefficients in [-3,3], with paired and duplicate rows; oracle = z3 (LIA / LRA) and own evaluation of '
+            'coefficients in [-3,3], with paired and duplicate rows; all ordered triples of bounds on one variable; random '
+            'families of parallel rows (several bounds on one linear form); oracle = z3 (LIA / LRA) and own evaluation of '
             'witnesses; 5 s per call; non-trivial = distinct (procedure, system)', 'evaluations': evals,
             'distinct_nontrivial': len(distinct), 'omega_verdicts': verdicts, 'crashes_not_counted': len(crashes), 'crash_samples': crashes[:4], 'samples': samples,
             'violations': uniq[:12], 'n_violations': len(uniq), 'all_violations': len(violations),
